@@ -9,6 +9,7 @@ use crate::gen::tree::*;
 use crate::mon::capdispatch::{run_cap, CAPS};
 use crate::mon::dev::*;
 use crate::mon::tree::*;
+use crate::props::c01_boundary::*;
 use crate::props::c04::{corrupt, gen_message, SWEEP_ALPHABET};
 use crate::refm::resolver::RTree;
 use scpi::error::Error;
@@ -226,6 +227,35 @@ fn direct_api(ctx: &mut Ctx, input: &[u8]) {
 pub const LIST_SOUP: &[&[u8]] = &[b"@", b"1", b"!", b":", b",", b"-", b"+", b"'", b"\"", b"2", b" ", b"a", b".", b"e", b"99999999999999999999", b"\xff", b"(", b")"];
 
 pub fn run(cfg: &Cfg, rep: &mut Report) {
+    // (0) hand-picked boundary inputs x every conversion kind as first parameter x formatter capacities
+    let bi = boundary_inputs();
+    run_cases(cfg, "boundary", bi.len() as u64, rep, |_rng, ctx| {
+        let input = &bi[ctx.index as usize];
+        ctx.nontrivial(hash_bytes(input));
+        direct_api(ctx, input);
+        for (ci, c) in ALL_CONVS.iter().enumerate() {
+            if ctx.cfg.tiny && (ci + ctx.index as usize) % 4 != 0 {
+                continue;
+            }
+            bump(ctx, 1);
+            let built = single_conversion_tree(*c);
+            let mut dev = Dev::new();
+            let mut c0 = Context::default();
+            let mut out: Vec<u8> = Vec::new();
+            let r = built.root().run(input, &mut dev, &mut c0, &mut out);
+            ctx.count("boundary.runs");
+            check_result(ctx, "boundary", input, &r, "boundary list");
+            for cap in [0usize, 1, 7, 24, 64] {
+                if ctx.cfg.tiny && cap != 7 {
+                    continue;
+                }
+                dev.clear();
+                let r = run_cap(cap, built.root(), input, &mut dev, &mut c0).unwrap().result;
+                check_result(ctx, "boundary", input, &r, "boundary list, fixed capacity");
+            }
+        }
+        ctx.sample(|| jobj(&[("boundary_input", jbytes(input))]));
+    });
     // (a) Node::run on generated trees x handler scripts x inputs
     let ntrees = cfg.n(8, 40_000, 1_000_000);
     let nin = cfg.n(12, 150, 400) as usize;
@@ -402,28 +432,7 @@ pub fn run(cfg: &Cfg, rep: &mut Report) {
     let chunks = k * k;
     let before = rep.counters.get("stage.sweep.truncated").copied();
     run_cases(cfg, "sweep", chunks, rep, |_rng, ctx| {
-        // tree: A (leaf+branch), *A, E, H, A1 ... with handlers that pull 0..3 parameters through every conversion in turn
-        let mut scripts = vec![];
-        for (i, c) in ALL_CONVS.iter().enumerate() {
-            scripts.push(Script { id: i as u32, pulls: vec![Pull { optional: i % 2 == 0, conv: *c }, Pull { optional: true, conv: ALL_CONVS[(i * 7 + 3) % ALL_CONVS.len()] }], emit: vec![Val::U8(1)], ..Default::default() });
-        }
-        let nconv = scripts.len();
-        let names: [&[u8]; 8] = [b"A", b"E", b"H", b"AA", b"A1", b"AE", b"AH", b"EA"];
-        let mut specs = vec![];
-        let mut h = 0;
-        for n in names.iter() {
-            let mut sub = vec![Spec::leaf(b"", true, h % nconv)];
-            h += 1;
-            for m in names.iter().take(4) {
-                sub.push(Spec::leaf(m, false, h % nconv));
-                h += 1;
-            }
-            specs.push(Spec::branch(n, false, sub));
-        }
-        specs.push(Spec::leaf(b"*A", false, h % nconv));
-        specs.push(Spec::leaf(b"*E", false, (h + 1) % nconv));
-        specs.push(Spec::leaf(b"*AA", false, (h + 2) % nconv));
-        let built: Built<Dev, Script> = Built::new(&specs, scripts);
+        let built = all_conversions_tree();
         let mut dev = Dev::new();
         let mut c = Context::default();
         let c0 = al[(ctx.index / k) as usize];
